@@ -179,6 +179,33 @@ def to_integer(value: JSValue) -> int:
     return int(n)
 
 
+def _double_to_string(value: float) -> str:
+    """Number::toString for a finite non-zero double: shortest round-trip digits,
+    positional notation for 1e-6 <= |x| < 1e21, exponent notation otherwise."""
+    if value < 0:
+        return "-" + _double_to_string(-value)
+    # repr() gives the shortest digits that round-trip; split them off
+    mantissa, _, exponent = repr(value).partition("e")
+    int_part, _, frac_part = mantissa.partition(".")
+    digits = (int_part + frac_part).lstrip("0")
+    # n: position of the decimal point relative to the first digit
+    n = len(int_part) + (int(exponent) if exponent else 0)
+    n -= len(int_part + frac_part) - len(digits)
+    digits = digits.rstrip("0")
+    k = len(digits)
+    if k <= n <= 21:
+        return digits + "0" * (n - k)
+    if 0 < n <= 21:
+        return digits[:n] + "." + digits[n:]
+    if -6 < n <= 0:
+        return "0." + "0" * (-n) + digits
+    e = n - 1
+    sign = "+" if e >= 0 else "-"
+    if k == 1:
+        return f"{digits}e{sign}{abs(e)}"
+    return f"{digits[0]}.{digits[1:]}e{sign}{abs(e)}"
+
+
 def to_string(value: JSValue) -> str:
     """Convert a JavaScript value to string."""
     if value is UNDEFINED:
@@ -196,14 +223,9 @@ def to_string(value: JSValue) -> str:
             return "Infinity"
         if value == float("-inf"):
             return "-Infinity"
-        # Handle -0
-        if value == 0 and math.copysign(1, value) < 0:
-            return "0"
-        # Format float nicely
-        s = repr(value)
-        if s.endswith(".0"):
-            return s[:-2]
-        return s
+        if value == 0:
+            return "0"  # also for -0
+        return _double_to_string(value)
     if isinstance(value, str):
         return value
     # TODO: Handle objects with toString
